@@ -60,7 +60,15 @@ TraceDeliver == /\ IsEvent("Deliver")
                    /\ Match(n, Log[l])
 TraceTick    == IsEvent("Tick") /\ Tick
 
-TraceNext == TraceReset \/ TraceTunSend \/ TraceRetry \/ TraceDeliver \/ TraceTick
+\* a handshake datagram that fails authentication (recoverably): nothing changes (C07); with "racing" the node's state was
+\* not sampled (a goroutine of the node is parked inside the step until the following Tick)
+TraceGarbled == /\ IsEvent("Garbled") /\ NoEmit /\ tunout' = 0
+                /\ UNCHANGED <<clock, msgs, pend, tuns, hosts, sends, timers, early, bad>>
+                /\ ("racing" \in DOMAIN Log[l] \/ Match(Log[l].n, Log[l]))
+\* the network has been silent for longer than all attempts of a handshake take: nothing is pending any more
+TraceQuiet == /\ IsEvent("Quiet") /\ UNCHANGED vars
+              /\ Log[l].pending = 0 /\ NoOverdue /\ \A n \in Nodes : DOMAIN pend[n] = {}
+TraceNext == TraceReset \/ TraceTunSend \/ TraceRetry \/ TraceDeliver \/ TraceTick \/ TraceGarbled \/ TraceQuiet
 TraceSpec == TraceInit /\ [][TraceNext]_tvars
 
 TraceAccepted == TLCGet("stats").diameter - 1 = Len(Log)
